@@ -57,7 +57,7 @@ func (x *Exec) initState(suffix string) *State {
 		}
 		if x.fn.Signature.Recv() != nil && i == 0 {
 			x.params["this"] = v
-			if isPointerLike(p.Type()) {
+			if isPointerLike(p.Type()) && !x.spec.NilReceiver {
 				s.assume("(not (= " + v.L[0] + " 0))")
 			}
 		}
@@ -739,6 +739,10 @@ func (x *Exec) checkPost(s *State, res []Val) {
 				x.heapStore(s, t.arr, elem, t.base, term)
 			}
 		}
+	}
+	if coverClauses && !x.relyMode {
+		// at least one return path of the function must be reachable under its precondition
+		x.emit(s, "cover", "some_return_path_is_reachable", []string{x.prop}, "false", nil)
 	}
 	env := x.specEnv(s, x.entryHeap, x.resultVars(res))
 	if x.relyMode {
